@@ -1,13 +1,13 @@
-CONSTANTS K = 2
+CONSTANTS K = 3
 TYS = {"Z"}
-PHS = {0,1,4}
+PHS = {0,1,2,4}
 ETS = {"H"}
 NB = 2
-VARS = {0,1}
+VARS = {}
 BB = FALSE
-INIT Init
-NEXT Next
+STRAT = "full"
+SPECIFICATION Spec
 INVARIANT Sound
 INVARIANT NoPanicInv
-INVARIANT StaysWF
+PROPERTY Terminates
 CHECK_DEADLOCK FALSE
